@@ -19,6 +19,7 @@ Proof.
 Qed.
 
 Section Mono.
+Variable fixed : bool.
 Variable full : list Z.
 Variable base : Z.
 
@@ -48,7 +49,7 @@ Ltac mono_step :=
   end.
 Ltac mono_auto := cbv zeta; repeat mono_step.
 
-Lemma body_mono : forall f, mono2 (body full base rec1 f) (body full base rec2 f).
+Lemma body_mono : forall f, mono2 (body fixed full base rec1 f) (body fixed full base rec2 f).
 Proof.
   destruct f; simpl;
     [ unfold dd_encoding | unfold dd_name | unfold dd_local_name | unfold dd_nested_name
@@ -64,39 +65,39 @@ Proof.
 Qed.
 End Mono.
 
-Lemma run_mono_S : forall full base k f, mono2 (run full base k f) (run full base (S k) f).
+Lemma run_mono_S : forall fixed full base k f, mono2 (run fixed full base k f) (run fixed full base (S k) f).
 Proof.
   induction k as [| k IH]; intros f.
   - intros st. left. reflexivity.
-  - change (mono2 (body full base (run full base k) f) (body full base (run full base (S k)) f)).
+  - change (mono2 (body fixed full base (run fixed full base k) f) (body fixed full base (run fixed full base (S k)) f)).
     apply body_mono. exact IH.
 Qed.
-Lemma run_mono : forall full base k k' f st, (k <= k')%nat ->
-  le_res (run full base k f st) (run full base k' f st).
+Lemma run_mono : forall fixed full base k k' f st, (k <= k')%nat ->
+  le_res (run fixed full base k f st) (run fixed full base k' f st).
 Proof.
-  intros full base k k' f st H. induction H as [| k' H IH].
+  intros fixed full base k k' f st H. induction H as [| k' H IH].
   - right. reflexivity.
   - destruct IH as [E | E]; [ left; exact E |].
-    destruct (run_mono_S full base k' f st) as [E' | E'].
+    destruct (run_mono_S fixed full base k' f st) as [E' | E'].
     + left. rewrite E. exact E'.
     + right. rewrite E. exact E'.
 Qed.
 
 (* the whole wrapper: unless the smaller fuel ran out, more fuel changes nothing *)
-Lemma demangle_fuel_mono : forall s k k', (k <= k')%nat ->
-  demangle_fuel k s <> Hang -> demangle_fuel k' s = demangle_fuel k s.
+Lemma demangle_fuel_mono : forall fixed s k k', (k <= k')%nat ->
+  demangle_fuel fixed k s <> Hang -> demangle_fuel fixed k' s = demangle_fuel fixed k s.
 Proof.
-  intros s k k' Hk. unfold demangle_fuel.
+  intros fixed s k k' Hk. unfold demangle_fuel.
   destruct (negb (mangled_form s)); [ reflexivity |].
   set (base := if prefix_of prefix_str s then 15 else 0).
   set (l := Z.of_nat (List.length s) - base).
-  destruct (run_mono s base k k' FEncoding (st0 l) Hk) as [E | E]; rewrite E.
+  destruct (run_mono fixed s base k k' FEncoding (st0 l) Hk) as [E | E]; rewrite E.
   - cbn [of_res]. intros H. exfalso. apply H. reflexivity.
-  - destruct (run s base k' FEncoding (st0 l)) as [v st | f |]; cbn [of_res]; try reflexivity.
+  - destruct (run fixed s base k' FEncoding (st0 l)) as [v st | f |]; cbn [of_res]; try reflexivity.
     destruct ((v <? 0) || negb (level st =? 0)); [ reflexivity |].
     destruct (pos st >=? len st); [ reflexivity |].
     destruct (negb (type_info st)); [ reflexivity |].
-    destruct (run_mono s base k k' FName st Hk) as [E2 | E2]; rewrite E2.
+    destruct (run_mono fixed s base k k' FName st Hk) as [E2 | E2]; rewrite E2.
     + cbn [of_res]. intros H. exfalso. apply H. reflexivity.
     + reflexivity.
 Qed.
